@@ -38,6 +38,7 @@ def targets():
 
     def composite(tr):
         tr = namespace(lambda t: mh(t, sel("x")), "first")(tr)
+        save(x_now=tr.get_choices()["x"], b_flag=tr.get_choices()["x"] > 0.0)  # diagnostics saved before `accept`, not in alphabetical order
         tr = mala(tr, sel("z"), 0.4)
         save(score=tr.get_score())
         return tr
@@ -128,6 +129,12 @@ def check_full(R, n, c):
                 fails.append((f"full.accepts_vs_state_change:{C}", f"chain {ci} step {i}: accepts[{i}]={ac} but the state {'changed' if changed else 'did not change'} relative to the previous retained state (first state must be one kernel step after the initial trace)"))
             if R.cont is None and R.name == "cont_inner_scan" and changed != ac:
                 fails.append((f"full.accepts_vs_state_change:{C}", f"chain {ci} step {i}: saved sub-move accepts {np.asarray(sel(acc)[i]).tolist()} but the state {'changed' if changed else 'did not change'}"))
+            if R.name == "cont_composite":
+                # the composite kernel saves its top-level `accept` from the mala move on z (the mh move on x saves under a
+                # namespace, a score diagnostic is saved after it): accepts[i] must be that flag, not another saved value
+                z_changed = not np.array_equal(cur["z"], prev["z"])
+                if z_changed != ac:
+                    fails.append((f"full.accepts_vs_state_change:{C}", f"chain {ci} step {i}: accepts[{i}]={ac} but the address moved by the kernel that saves `accept` {'changed' if z_changed else 'did not change'}"))
             if R.cont is False and changed and not ac:
                 fails.append((f"full.accepts_vs_state_change:{C}", f"chain {ci} step {i}: state changed although accepts[{i}] is False"))
             lp = float(sel(logps)[i])
